@@ -46,8 +46,9 @@ func buildPlan(id string, pinned map[string]string, tier string) *Plan {
 			}
 		}
 		p.Trusted = []string{"pinned moduli in /verif/contracts/params.json", "axiomatic semantics of encoding/binary big/little-endian accessors"}
-		p.NotCovered = []string{"SetBytes / SetBigInt / BigInt / Text / SetString / JSON (math/big, strconv): not under contract", "Vector ReadFrom / AsyncReadFrom / WriteTo / MarshalBinary: not under contract"}
-		p.Note = "Canonical byte decoders accept exactly encodings below q; encoders and decoders are mutually inverse (lemma functions verified from the two contracts); integer setters produce the residue mod q; comparisons act on the regular value."
+		p.Trusted = append(p.Trusted, "SetString: the parser of math/big (big.Int.SetString with base 0) is a pair of uninterpreted functions of the characters (accepts / value); Element.SetBigInt enters through its assumed contract (z = v mod q); the big.Int pool is an opaque call")
+		p.NotCovered = []string{"SetBytes / SetBigInt / BigInt / Text / JSON (math/big, strconv): not under contract (SetBigInt: assumed contract)", "Vector ReadFrom / AsyncReadFrom / WriteTo / MarshalBinary: not under contract"}
+		p.Note = "Canonical byte decoders accept exactly encodings below q; encoders and decoders are mutually inverse (lemma functions verified from the two contracts); integer setters produce the residue mod q; comparisons act on the regular value; SetString accepts exactly the strings math/big accepts in base 0, sets the residue mod q of the integer they denote, and otherwise returns (nil, error) with z untouched."
 		return p
 	case "C02":
 		p := &Plan{ID: id}
@@ -129,7 +130,7 @@ func buildPlan(id string, pinned map[string]string, tier string) *Plan {
 		p.NotCovered = []string{"G2 decoders over an extension field: the sign selection of the recovered Y and the value Y^2 = X^3 + b' are not stated (the extension-field methods are opaque calls: the clauses say that Legendre and Sqrt were applied to the same YSquared object and that Legendre != -1)",
 			"encoders (Bytes / RawBytes), round trip Bytes/SetBytes, streaming Encoder / Decoder (reflection, io.Reader chunking, parallel Y recovery): not under contract",
 			"secp256k1 (different decoder shape) and twisted-Edwards point decoding: not under contract (twistededwards.PointAffine.SetBytes has no rejection path at all: see DESIGN.md findings)"}
-		p.Note = "G2Affine.setBytes of the 7 curves with a G2 decoder: same acceptance-implies-check clauses with all 2k (raw) / k (compressed) base-field coordinates decoded canonically (k = extension degree), the Legendre test and the square root applied to the same value. G1Affine.setBytes / unsafeSetCompressedBytes of every curve with the generated decoder: a nil error is returned only if the flag pattern is valid, the coordinates decoded canonically, infinity encodings are all-zero, an uncompressed point passed the subgroup test or (when disabled) the on-curve test, a compressed point has Y = +-sqrt(X^3+b) with the sign selected by the flag and passed the subgroup test when enabled; byte counts match; short buffers give errors (no panic: all slice bounds are obligations)."
+		p.Note = "G2Affine.setBytes of the 7 curves with a G2 decoder: same acceptance-implies-check clauses with all 2k (raw) / k (compressed) base-field coordinates decoded canonically (k = extension degree), the Legendre test and the square root applied to the same value. G1Affine.setBytes / unsafeSetCompressedBytes of every curve with the generated decoder: a nil error is returned only if the flag pattern is valid, the coordinates decoded canonically, infinity encodings are all-zero (every payload byte of the compressed, resp. raw, length is zero: stated over the input bytes), an uncompressed point passed the subgroup test or (when disabled) the on-curve test, a compressed point has Y = +-sqrt(X^3+b) with the sign selected by the flag and passed the subgroup test when enabled; byte counts match; short buffers give errors (no panic: all slice bounds are obligations)."
 		return p
 	case "C17":
 		p := &Plan{ID: id}
@@ -145,9 +146,9 @@ func buildPlan(id string, pinned map[string]string, tier string) *Plan {
 		}
 		p.Trusted = []string{"opaque calls: every callee is treated as returning arbitrary values and assumed not to write through its arguments (setter-style methods write their receiver)",
 			"IsInSubGroup is declared pure (a deterministic predicate of the point)", "the set of checks each scheme prescribes is written in the contracts from the schemes' definitions; its cryptographic sufficiency is not proved"}
-		p.NotCovered = []string{"completeness (honest proofs are accepted) is not under contract", "SHPLONK, fflonk, FRI, mpcsetup verifiers and the table variant of plookup (VerifyLookupTables): not under contract; permutation and vector-lookup arguments: the Fiat-Shamir derivations are opaque (which commitments each challenge binds is captured only through the call order)",
+		p.NotCovered = []string{"completeness (honest proofs are accepted) is not under contract", "SHPLONK, fflonk (three-level nested slices), FRI, mpcsetup verifiers and the table variant of plookup (VerifyLookupTables): not under contract; permutation and vector-lookup arguments: the Fiat-Shamir derivations are opaque (which commitments each challenge binds is captured only through the call order)",
 			"Pedersen BatchVerifyMultiVk: the equality of the G2 parameters across keys and the exact arguments of the folded pairing check are not under contract (slices of structs are not modelled); an empty batch is excluded by precondition (it panics)"}
-		p.Note = "Acceptance-implies-check: Vortex Params.Verify returns nil only if uAlpha evaluated at the point equals the folded claims, uAlpha is a codeword, the numbers of opened columns and proofs match, and every selected column is in range, consistent with uAlpha, SIS-hashed and Merkle-authenticated (end-of-iteration obligation on every iteration). Vector lookup (plookup) VerifyLookupVector (7 curves): nil only if the folded relation of the scheme holds on the four challenges (in derivation order) and the ten claimed values, both batched openings verified on the prescribed digests at nu and g*nu, and g has order exactly n. Permutation argument Verify (7 curves): nil only if the algebraic relation between the three challenges (in derivation order), the four batched claimed values and the shifted claimed value holds, the batched opening of (t1, t2, z, q) at eta and the opening of z at eta*g both verified, and g has order exactly n (g^(n/2) != 1, g^n == 1). Pedersen Verify: both points pass the subgroup test and the pairing check is made on exactly (commitment, pok) x (GSigmaNeg, G); BatchVerifyMultiVk: every commitment and every proof passes the subgroup test (quantified loop invariants over a shape-independent iteration counter), lengths agree, the pairing check result is honoured."
+		p.Note = "Acceptance-implies-check: Vortex Params.Verify returns nil only if uAlpha evaluated at the point equals the folded claims, uAlpha is a codeword, the numbers of opened columns and proofs match, and every selected column is in range, consistent with uAlpha, SIS-hashed and Merkle-authenticated (end-of-iteration obligation on every iteration). IsReedSolomonCodewords returns true only if, for each of the four base-field coordinates in turn, the vector handed to the inverse transform on the second domain was that coordinate of the codeword entry by entry over the whole codeword length, and every entry NbColumns..SizeCodeWord-1 of the transformed vector was then tested for zero (transform and bit reversal: opaque calls that overwrite their argument). Vector lookup (plookup) VerifyLookupVector (7 curves): nil only if the folded relation of the scheme holds on the four challenges (in derivation order) and the ten claimed values, both batched openings verified on the prescribed digests at nu and g*nu, and g has order exactly n. Permutation argument Verify (7 curves): nil only if the algebraic relation between the three challenges (in derivation order), the four batched claimed values and the shifted claimed value holds, the batched opening of (t1, t2, z, q) at eta and the opening of z at eta*g both verified, and g has order exactly n (g^(n/2) != 1, g^n == 1). Pedersen Verify: both points pass the subgroup test and the pairing check is made on exactly (commitment, pok) x (GSigmaNeg, G); BatchVerifyMultiVk: every commitment and every proof passes the subgroup test (quantified loop invariants over a shape-independent iteration counter), lengths agree, the pairing check result is honoured."
 		return p
 	case "C15":
 		p := &Plan{ID: id}
@@ -166,8 +167,8 @@ func buildPlan(id string, pinned map[string]string, tier string) *Plan {
 		p.Trusted = []string{"CompressPoseidon2 is a deterministic function of its arguments (assumed contract)", "i >> n == 0 iff 0 <= i < 2^n (arithmetic fact used to read the index-range clause)",
 			"accumulator: leafSum, nodeSum and bytes.Equal are opaque calls (captured at the call site); elements of the proof set are not modelled; loop-carried digests are fresh allocations"}
 		p.NotCovered = []string{"BuildMerkleTree, MerkleTree.Open: not under contract (nested slices, parallel.Execute)",
-			"accumulator/merkletree: the tree builder (Push / PushSubTree / ReadAll / Prove) and the order in which VerifyProof combines siblings are not under contract (only totality and the acceptance-implies-check clauses are)"}
-		p.Note = "Vortex MerkleProof.Verify accepts iff fold(leaf, proof, i) == root and 0 <= i < 2^len(proof); tamper rejection follows with the compression function uninterpreted. Accumulator VerifyProof is total for every proof length, index and leaf count (no index out of range, no division by zero) and accepts only if a root was given, the index is below the leaf count, the proof is non-empty and the final comparison against the given root succeeded."
+			"accumulator/merkletree: the tree builder (Push / PushSubTree / Prove) and the order in which VerifyProof combines siblings are not under contract (only totality and the acceptance-implies-check clauses are); of ReadAll only the ownership of the leaf buffers is"}
+		p.Note = "Vortex MerkleProof.Verify accepts iff fold(leaf, proof, i) == root and 0 <= i < 2^len(proof); tamper rejection follows with the compression function uninterpreted. Accumulator VerifyProof is total for every proof length, index and leaf count (no index out of range, no division by zero) and accepts only if a root was given, the index is below the leaf count, the proof is non-empty and the final comparison against the given root succeeded. ReadAll hands Push (which keeps the slice it is given) a buffer allocated in the same iteration of the read loop, of at most the segment size, never a buffer that a later read fills again (io.ReadFull: assumed contract of the standard library)."
 		return p
 	case "C14":
 		p := &Plan{ID: id}
@@ -180,9 +181,10 @@ func buildPlan(id string, pinned map[string]string, tier string) *Plan {
 		p.Units = append(p.Units, Unit{Pkg: "./hash", Tags: "", Groups: []string{"md"}})
 		p.Trusted = []string{"ring layer over fr.Element (C01 contracts)", "published Poseidon2 matrices for widths 2 and 3 and S-box degree per curve", "documented MiMC instances: exponent and number of rounds per curve (gcv/gen_tower.go mimcParams)",
 			"the round-constant table is a fixed array (its derivation from Keccak is not under contract)"}
-		p.NotCovered = []string{"Poseidon2 permutations and wrappers, ring-SIS, Merkle-Damgard wrapper, hash registry: not under contract",
+		p.Trusted = append(p.Trusted, "Merkle-Damgard wrapper: assumed contracts of the Compressor interface (positive block size; Compress reads its arguments, keeps and writes none of them, returns a slice it allocated)")
+		p.NotCovered = []string{"Poseidon2 permutations and wrappers, ring-SIS, hash registry, the methods of the Merkle-Damgard wrapper other than Write: not under contract",
 			"MiMC round-constant derivation (sha3): not under contract", "digest.Reset / WriteString / State: not under contract"}
-		p.Note = "MiMC: encrypt is the documented number of rounds of x -> (x + k + c_i)^d followed by + k (recursive specification, loop invariant); checksum is the Miyaguchi-Preneel fold over the absorbed blocks; Write never slices its input beyond len(p) (strict slice obligations), accepts only whole blocks (or one short left-padded block) and reports the bytes it consumed; SetState and Sum flush the pending blocks."
+		p.Note = "MiMC: encrypt is the documented number of rounds of x -> (x + k + c_i)^d followed by + k (recursive specification, loop invariant); checksum is the Miyaguchi-Preneel fold over the absorbed blocks; Write never slices its input beyond len(p) (strict slice obligations), accepts only whole blocks (or one short left-padded block) and reports the bytes it consumed, keeps every block absorbed by earlier writes (in order, whatever the outcome of this one) and adds exactly the blocks it reports; SetState and Sum flush the pending blocks. Merkle-Damgard Write: every block handed to the compression function is the next block-size bytes of the input (the same window, unchanged) or, for a short remainder, a buffer of exactly one block holding zeros followed by the remaining bytes; the chaining value handed over is the current state."
 		return p
 	case "C06":
 		p := &Plan{ID: id}
@@ -238,11 +240,12 @@ func buildPlan(id string, pinned map[string]string, tier string) *Plan {
 			p.Units = append(p.Units, Unit{Pkg: c.Pkg, Tags: "", Groups: []string{"domain"}})
 		}
 		p.Trusted = []string{"ring layer over the field's Element (C01 contracts); Vector.Mul through its contract (C01, portable build); Element.Exp is an uninterpreted power at the ring layer",
-			"twseq(t, x, n) = t * x^n is axiomatised by its two defining equations (a total function by recursion on n)"}
+			"twseq(t, x, n) = t * x^n is axiomatised by its two defining equations (a total function by recursion on n)",
+			"NewDomain: the option parser, NextPowerOfTwo, Generator and GeneratorFullMultiplicativeGroup are opaque calls captured at the call site; a pointer inside the parsed options is nil or a fresh object; preComputeTwiddles writes only the four table fields (assumed: goroutines)"}
 		p.NotCovered = []string{"the statement of the property itself: that the composition of these kernels over log2(n) stages, with the documented bit-reversed ordering, the coset scaling, the goroutine split and every option, is the discrete Fourier transform (Cooley-Tukey induction over a goroutine-split recursion) is NOT decided by these contracts",
-			"unrolled kernels kerDIFNP_32 / kerDITNP_256 / ..., AVX-512 kernels of the 31-bit fields, difFFT / ditFFT recursion, FFT / FFTInverse entry points, BitReverse (cobra variants), Domain construction and serialisation: not under contract",
+			"unrolled kernels kerDIFNP_32 / kerDITNP_256 / ..., AVX-512 kernels of the 31-bit fields, difFFT / ditFFT recursion, FFT / FFTInverse entry points (closures handed to parallel.Execute), BitReverse (cobra variants), the contents of the precomputed tables (preComputeTwiddles: goroutines, assumed frame), Domain serialisation: not under contract",
 			"default build: Vector.Mul is an assembly routine on amd64, so the kernels with a twiddle table are verified for the portable build only"}
-		p.Note = "Partial: the four radix-2 butterfly kernels of every FFT package (with and without a twiddle table, decimation in time and in frequency) perform exactly the butterfly a[i], a[i+m] <- a[i] + a[i+m], (a[i] - a[i+m]) t_i (resp. a[i] + t_i a[i+m], a[i] - t_i a[i+m]) on every pair of the requested range with t_0 = 1, t_i = twiddles[i] or at*w^(i-start), touch nothing else, and never index out of range under the stated size preconditions; precomputeExpTableChunk fills table[j] = w^power * w^j. A change inside a kernel that alters any output entry fails a named obligation."
+		p.Note = "Partial: the four radix-2 butterfly kernels of every FFT package (with and without a twiddle table, decimation in time and in frequency) perform exactly the butterfly a[i], a[i+m] <- a[i] + a[i+m], (a[i] - a[i+m]) t_i (resp. a[i] + t_i a[i+m], a[i] - t_i a[i+m]) on every pair of the requested range with t_0 = 1, t_i = twiddles[i] or at*w^(i-start), touch nothing else, and never index out of range under the stated size preconditions; precomputeExpTableChunk fills table[j] = w^power * w^j. A change inside a kernel that alters any output entry fails a named obligation. NewDomain (default build, 10 packages): the cardinality is the value of ecc.NextPowerOfTwo(m), the generator the value of Generator(m) (an error is a panic, not a result), the coset shift the option's shift when one is given and GeneratorFullMultiplicativeGroup() otherwise, the precompute flag the option's, and GeneratorInv, CardinalityInv, FrMultiplicativeGenInv are the inverses of Generator, Cardinality, FrMultiplicativeGen as stored in the returned domain."
 		return p
 	case "C11":
 		p := &Plan{ID: id}
@@ -273,9 +276,9 @@ func buildPlan(id string, pinned map[string]string, tier string) *Plan {
 			"scalar multiplications, point addition, on-curve tests, HashToInt and the hash object are opaque calls: their arguments and results are captured at the call site; setter-style methods write only their receiver; chained methods return their receiver",
 			"Element.BigInt / SetBigInt are the (uninterpreted) bijection between ring elements and integers at the ring layer"}
 		p.NotCovered = []string{"completeness (every honest signature verifies): needs the group law over scalar multiplication (C03), not under contract",
-			"Sign, GenerateKey, nonce derivation, public-key recovery beyond the x-coordinate of the commitment, key (de)serialisation, the signature.Signer interfaces: not under contract",
+			"GenerateKey, nonce derivation (the nonce is whatever randFieldElement returned), the recovery id computed by SignForRecover, public-key recovery beyond the x-coordinate of the commitment, EdDSA Sign, key (de)serialisation, the signature.Signer interfaces: not under contract",
 			"EdDSA: which bytes are hashed into H(R, A, M) is not modelled (hash object opaque); the curve order is the value returned by GetEdwardsCurve (not compared with a pinned constant)"}
-		p.Note = "ECDSA: Signature.SetBytes accepts exactly the 2*sizeFr-byte strings with 0 < r, s < n (both directions) and stores them unchanged; Verify refuses (false) on every decoding error, and on acceptance of the encoding returns exactly [ (x(U) mod n) == r ] for the U produced by the joint scalar multiplication called on the public key with u1 = m*s^-1 mod n and u2 = r*s^-1 mod n, m = HashToInt(...) (the textbook equation with the scalar multiplication opaque); recoverP accepts only 0 < r < n and sets x = r + n*bit1(v). EdDSA: Signature.SetBytes accepts only strings of 2*sizeFr bytes with 0 < y(R) < q after clearing the sign bit (mask recomputed from the pinned modulus), 0 < S < order, and R decoded by the point decoder and on the curve; Verify requires a hash, the key on the curve, decodes the signature through that contract, and returns exactly the comparison of [cofactor][S]Base with [cofactor](R + [H]A) computed by the (opaque) point operations in that order on those operands, both results tested on the curve."
+		p.Note = "ECDSA: Signature.SetBytes accepts exactly the 2*sizeFr-byte strings with 0 < r, s < n (both directions) and stores them unchanged; Verify refuses (false) on every decoding error, and on acceptance of the encoding returns exactly [ (x(U) mod n) == r ] for the U produced by the joint scalar multiplication called on the public key with u1 = m*s^-1 mod n and u2 = r*s^-1 mod n, m = HashToInt(...) applied to the message itself when no hash is given and to the slice the hash returned otherwise (the textbook equation with the scalar multiplication opaque); Sign (SignForRecover + Sign on the 3 curves with recovery) returns a signature only if r = x(P) mod n != 0 for P the base-point multiple of the drawn nonce k, s = k^-1 (m + r d) mod n != 0 with d the big-endian integer of the private key and m = HashToInt of the message or of the digest, 0 < r, s < n, and the bytes returned are those of (r, s); recoverP accepts only 0 < r < n and sets x = r + n*bit1(v). EdDSA: Signature.SetBytes accepts only strings of 2*sizeFr bytes with 0 < y(R) < q after clearing the sign bit (mask recomputed from the pinned modulus), 0 < S < order, and R decoded by the point decoder and on the curve; Verify requires a hash, the key on the curve, decodes the signature through that contract, and returns exactly the comparison of [cofactor][S]Base with [cofactor](R + [H]A) computed by the (opaque) point operations in that order on those operands, both results tested on the curve."
 		return p
 	case "C13":
 		p := &Plan{ID: id}
